@@ -265,12 +265,18 @@ package keeper
 //@   ensures [C17.update.creator] err == nil ==> old(has(Did, "cosmos:" + ChainID + ":" + msg.Creator)) && old(Did["cosmos:" + ChainID + ":" + msg.Creator].Did) == msg.Did
 //@       && u64(msg.Timestamp + 900) >= u64(unixOf(BlockTime))
 //@   ensures [C17.update.payaddr] err == nil ==> old(has(PaymentAddress, msg.Did)) && has(PaymentAddress, msg.Did) && PaymentAddress[msg.Did] == old(PaymentAddress[msg.Did])
+//@   ensures [C17.update.unbound] err == nil ==> forall q int :: 0 <= q && q < len(msg.RemoveAccountDid) && old(has(AccountId, msg.RemoveAccountDid[q])) ==>
+//@       !has(Did, old(AccountId[msg.RemoveAccountDid[q]].AccountId))
 //@   at RemoveDid assert [C17.update.keeppay] !(caipNetwork(accountId) == "cosmos" && caipChain(accountId) == ChainID && caipAddress(accountId) == PaymentAddress[msg.Did].Address)
 //@   loop L1 invariant -1 <= rangeindex
 //@   loop L2 invariant -1 <= rangeindex && rangeindex < len(removeList)
 //@   loop L2 invariant forall q int :: 0 <= q && q < len(removeAccId) ==>
 //@       !(caipNetwork(removeAccId[q]) == "cosmos" && caipChain(removeAccId[q]) == ChainID && caipAddress(removeAccId[q]) == payAddr.Address)
+//@   loop L2 invariant [C17.update.unbound] len(removeAccId) == rangeindex + 1 && (forall q int :: 0 <= q && q <= rangeindex ==> has(AccountId, removeList[q]) && removeAccId[q] == AccountId[removeList[q]].AccountId)
 //@   loop L3 invariant -1 <= rangeindex && rangeindex < len(removeAccId)
+//@   loop L3 invariant [C17.update.unbound] forall q int :: 0 <= q && q <= rangeindex ==> !has(Did, removeAccId[q])
+//@   loop L3 invariant [C17.update.unbound] forall c string :: has(Did, c) ==> entry(has(Did, c))
+//@   loop L3 invariant [C17.update.unbound] forall c string :: AccountId[c] == old(AccountId[c]) && (has(AccountId, c) <==> old(has(AccountId, c)))
 //@   loop L3 invariant PaymentAddress[msg0.Did] == old(PaymentAddress[msg0.Did]) && has(PaymentAddress, msg0.Did)
 //@   loop L4 invariant -1 <= rangeindex
 //@   loop L4 invariant PaymentAddress[msg0.Did] == old(PaymentAddress[msg0.Did]) && has(PaymentAddress, msg0.Did)
